@@ -19,6 +19,7 @@ import (
 	"strconv"
 	"strings"
 	"sync"
+	"time"
 
 	"github.com/redis/go-redis/v9"
 )
@@ -59,6 +60,12 @@ func (s *Server) Client() *redis.Client {
 	return redis.NewClient(&redis.Options{
 		Addr:       "c05fake",
 		MaxRetries: -1,
+		// real time must never decide a result: generous timeouts, so a starved machine cannot turn a round trip
+		// into an i/o-timeout error (the harness watchdog reports a genuine hang as a harness error, not a verdict)
+		DialTimeout:  120 * time.Second,
+		ReadTimeout:  60 * time.Second,
+		WriteTimeout: 60 * time.Second,
+		PoolTimeout:  120 * time.Second,
 		Dialer: func(ctx context.Context, network, addr string) (net.Conn, error) {
 			a, b := net.Pipe()
 			go s.serve(b)
